@@ -669,7 +669,26 @@ def tok_strs(toks):
     return [core.unhx(t.split(":")[0]).decode("latin-1") for t in toks]
 
 
-def classify_dev(toks, src=None):
+# declaration position of the names of the standard prologue (all variables are parameters; m n k are members)
+PROLOGUE_DECL = {"a": "parameter", "b": "parameter", "c": "parameter", "d": "parameter", "e": "parameter", "p": "parameter", "r": "parameter",
+                 "s": "parameter", "q": "parameter", "fp": "parameter", "x": "parameter", "m": "member", "n": "member", "k": "member"}
+
+
+def template_key(src, decl):
+    """key of a template-bracket deviation: the declaration positions of the names that stand directly in front of a `<`
+    (Tokenizer::splitTemplateRightAngleBrackets only knows variables declared as `[;{}] <standard type> name [;,=]`)"""
+    decl = decl or PROLOGUE_DECL
+    cls = set()
+    for i, t in enumerate(src):
+        if t == "<" and i > 0:
+            cls.add(decl.get(src[i - 1], "non-name" if not re.match(r"[A-Za-z_]", src[i - 1]) else "undeclared"))
+    quiet = {"local-after-semicolon", "non-name"}     # positions every version handles: not part of the key when another class is involved
+    if cls - quiet:
+        cls -= quiet
+    return "template-brackets:" + "+".join(sorted(cls))
+
+
+def classify_dev(toks, src=None, decl=None):
     """known classes of deviation, decided on the final token list (strings + flags)"""
     strs = tok_strs(toks)
     fl = [t.split(":")[1] for t in toks]
@@ -687,10 +706,10 @@ def classify_dev(toks, src=None):
                     break
                 j += 1
     for i in range(n - 1):
-        if strs[i] == ">" and strs[i + 1] == ">" and src is not None and ">>" in src:
-            return "template-bracket-heuristic"         # `>>` split by splitTemplateRightAngleBrackets
+        if strs[i] == ">" and strs[i + 1] == ">" and src is not None and any(t.startswith(">>") for t in src):
+            return template_key(src, decl)              # `>>` split by splitTemplateRightAngleBrackets
     if any("T" in f for f in fl):
-        return "template-bracket-heuristic"             # `<` ... `>` between variables linked as template brackets
+        return template_key(src or strs, decl)          # `<` ... `>` between variables linked as template brackets
     if src is not None and strs.count("(") < src.count("("):
         for i in range(len(src) - 1):
             k = i
@@ -721,13 +740,47 @@ def classify_dev(toks, src=None):
     return None
 
 
+TYPE_WORDS = {"unsigned", "signed", "int", "char", "long", "short", "double", "float"}
+NUM_RE = re.compile(r"-?(0x[0-9a-fA-F]+|\d[\w.]*)$")
+
+
+def token_rewrite_class(src, finals):
+    """P_token: for a template-free program the operator tokens handed to createAst are the source's.  Compares the multisets of
+    non-parenthesis tokens; returns None (equal), the name of a recognised deliberate tokenizer simplification, or
+    'UNKNOWN: -removed +added' (a deviation)."""
+    from collections import Counter
+    a = Counter(t for t in src if t not in "()")
+    b = Counter(t for t in finals if t not in "()")
+    rem, add = a - b, b - a
+    if not rem and not add:
+        return None
+    classes = []
+    tw_r = Counter({k: v for k, v in rem.items() if k in TYPE_WORDS}); tw_a = Counter({k: v for k, v in add.items() if k in TYPE_WORDS})
+    if tw_r or tw_a:
+        rem, add = rem - tw_r, add - tw_a
+        classes.append("type-words")                   # simplifyStdType: `unsigned char` is one token `char` with a flag
+    if rem and set(rem) <= {"+", "-"} and set(add) <= {"+", "-"} and sum(add.values()) < sum(rem.values()):
+        classes.append("double-sign"); rem, add = Counter(), Counter()          # `- -` to `+`, `+ -` to `-`, unary plus dropped
+    if add and all(NUM_RE.match(k) for k in add) and any(NUM_RE.match(k) for k in rem) and \
+            all(NUM_RE.match(k) or k in ("+", "-", "*", "/", "%", "<<", ">>", "&", "|", "^") for k in rem):
+        classes.append("constant-folding"); rem, add = Counter(), Counter()     # `- 1` to `-1`; C++: literal arithmetic between `name <` and `> name`
+    if rem and not add and rem["&"] >= 1 and rem["&"] == rem["["] == rem["]"] == rem["0"] and set(rem) == {"&", "[", "]", "0"}:
+        classes.append("address-of-first-element"); rem = Counter()           # `& a [ 0 ]` to `a`
+    if rem and not add and set(rem) == {"&"} and "." in finals:
+        classes.append("address-arrow"); rem = Counter()                      # `( & a ) -> m` to `a . m`
+    if rem or add:
+        return "UNKNOWN: -%s +%s" % (" ".join(sorted(rem.elements())), " ".join(sorted(add.elements())))
+    return "+".join(classes)
+
+
 def run_cases(ctx, res, exe, drv, cases, name, count=True):
     """cases: dicts with lang, toks (source tokens), expect (Polish words of `x = <expr>` or None).
     Returns list of P_impl failures."""
-    ops = ["full %s %s" % (c["lang"], core.hx(PROLOGUE + "x = " + source_of(c["toks"]) + " ;\n}\n")) for c in cases]
+    ops = ["full %s %s" % (c["lang"], core.hx(case_source(c))) for c in cases]
     rc, impl, err = core.run_lines(exe, [], ops, timeout=900)
     if len(impl) != len(ops):
         raise core.CheckBroken("C07 harness produced %d lines for %d ops (rc=%s): %s" % (len(impl), len(ops), rc, err[-500:]))
+    impl = [last_statement(o) if c.get("layout") else o for c, o in zip(cases, impl)]
     mops = []
     for c, o in zip(cases, impl):
         p = parse_impl(o)
@@ -738,7 +791,7 @@ def run_cases(ctx, res, exe, drv, cases, name, count=True):
     fails, mism = [], []
     for i, (c, o, m) in enumerate(zip(cases, impl, model)):
         p = parse_impl(o)
-        desc = "%s: x = %s ;" % (c["lang"], source_of(c["toks"]))
+        desc = "%s: x = %s ;" % (c["lang"], source_of(c["toks"])) + (" [variables declared: %s]" % c["layout"] if c.get("layout") else "")
         if p is None:
             impl_c = o
             model_c = "-"
@@ -770,22 +823,52 @@ def run_cases(ctx, res, exe, drv, cases, name, count=True):
         if p is not None and c.get("expect") is not None:
             want = " ".join(c["expect"])
             got = p[1][0] if len(p[1]) == 1 else " ; ".join(p[1])
+            finals = tok_strs(p[0])
+            src = ["x", "="] + ["." if t == "->" else t for t in c["toks"]] + [";"]
+            # P_token: the operator tokens handed to createAst are the lexer's (template-free input), up to the recognised
+            # deliberate simplifications; checked on every case, also when the tree happens to be well-formed
+            rw = token_rewrite_class(src, finals)
+            linked = any("T" in t.split(":")[1] for t in p[0])
+            if rw is not None and rw.startswith("UNKNOWN") or linked:
+                key = classify_dev(p[0], c["toks"], c.get("decl"))
+                what = "operator tokens rewritten before createAst (%s)" % (rw if rw else "`<`/`>` linked as template brackets")
+                fails.append(dict(case=c, desc=desc, got=got, want=want, key=key, final=" ".join(finals), what=what))
+                continue
+            if rw not in (None, "type-words"):
+                res.count("normalised:" + rw)          # deliberate simplification of another pass: the tree is not judged
+                continue
             if got != want:
-                finals = tok_strs(p[0])
-                key = classify_dev(p[0], c["toks"])
-                src_ops = sorted(t for t in ["x", "="] + ["." if t == "->" else t for t in c["toks"]] + [";"] if t not in "()")
-                fin_ops = sorted(t for t in finals if t not in "()")
-                if key is None and src_ops != fin_ops:
-                    # another tokenizer pass rewrote operator tokens (constant folding between `name <` and `> name`, `(&a)->m` to
-                    # `a.m`, `&a[0]` to `a`, `- -` to `+`, ...): deliberate simplifications, not the subject of C07 (counted)
-                    res.count("normalised:tokenizer-rewrite")
-                    continue
+                key = classify_dev(p[0], c["toks"], c.get("decl"))
                 fails.append(dict(case=c, desc=desc, got=got, want=want, key=key, final=" ".join(finals)))
         # a rejected input is not a C07 violation ("for every expression cppcheck accepts"); it is counted above
     res.traces_validated += len(cases) - len(mism)
     res.oblig("correspondence:" + name, not mism, "correspondence",
               "" if not mism else "%d of %d cases differ; first: %s impl=[%s] model=[%s]" % (len(mism), len(cases), mism[0][0], mism[0][1], mism[0][2]))
     return fails
+
+
+def case_source(c):
+    if c.get("source"):
+        return c["source"].replace("@STMT@", "x = " + source_of(c["toks"]) + " ;")
+    return PROLOGUE + "x = " + source_of(c["toks"]) + " ;\n}\n"
+
+
+def last_statement(o):
+    """harness line of a whole function body -> the same line restricted to its last statement (tokens and tree)"""
+    p = parse_impl(o)
+    if p is None:
+        return o
+    toks, trees = p
+    strs = tok_strs(toks)
+    end = len(strs) - 1
+    while end > 0 and strs[end] in ("}",):
+        end -= 1
+    k = end - 1
+    while k >= 0 and strs[k] not in (";", "{", "}"):
+        k -= 1
+    # the tree whose root is the first `=` of that statement: trees are in token order, take the last one rooted at `=`
+    last = [t for t in trees if t.startswith("=/")]
+    return "ok " + " ".join(toks[k + 1:end + 1]) + " | " + (last[-1] if last else "")
 
 
 def mk_case(rng, lang, tree, extra):
@@ -798,9 +881,10 @@ def mk_case(rng, lang, tree, extra):
 
 def report_fails(res, fails, origin):
     for f in fails:
-        res.violation("%s: tree built by cppcheck differs from the grammar tree: %s  final tokens: %s  got [%s] want [%s]" %
-                      (origin, f["desc"], f["final"], f["got"], f["want"]),
+        res.violation("%s: %s: %s  final tokens: %s  got [%s] want [%s]" %
+                      (origin, f.get("what", "tree built by cppcheck differs from the grammar tree"), f["desc"], f["final"], f["got"], f["want"]),
                       dict(lang=f["case"]["lang"], toks=f["case"]["toks"], expect=f["case"]["expect"], got=f["got"],
+                           source=f["case"].get("source"), layout=f["case"].get("layout"), decl=f["case"].get("decl"),
                            replay_cmd="./check.py C07 --replay <this file>"), concrete=True, key=f["key"])
 
 
@@ -1123,6 +1207,59 @@ def run_clang(ctx, res, n):
     res.extra["clang_oracle_cases"] = total
 
 
+# ------------------------------------------------------------------------------------------------------------
+# declaration positions: `<` `>` `>>` `<<` `<=` `>=` chains over int variables declared in every position
+# (Tokenizer::splitTemplateRightAngleBrackets keeps a list of declared variables so that `x < ...` is not probed as a template
+# argument list; which declarations it sees depends on where they stand)
+# ------------------------------------------------------------------------------------------------------------
+SAFE = ["sa", "sb", "sc", "sd"]             # int locals declared behind a `;` (the position every version handles)
+SAFE_DECL = "int sa = 1; int sb = 2; int sc = 8; int sd = 3;"
+HEAD = "struct S0 { int m0; };\n"
+LAYOUTS = {
+    # name: (source with @STMT@, probe variables)
+    "local-after-semicolon": (HEAD + "void f(int x) {\nint z0 = 0; " + SAFE_DECL + " int la = 4; int lb = 5;\n@STMT@\n}\n", ["la", "lb"]),
+    "local-first-after-open-brace": (HEAD + "void f(int x) {\nint la = 4; " + SAFE_DECL + "\n@STMT@\n}\n", ["la"]),
+    "local-first-in-nested-block": (HEAD + "void f(int x) {\nint z0 = 0; " + SAFE_DECL + "\n{\nint la = 4;\n@STMT@\n}\n}\n", ["la"]),
+    "local-after-close-brace": (HEAD + "void f(int x) {\nint z0 = 0; " + SAFE_DECL + "\n{ int t0 = 1; x = t0; }\nint la = 4; int lb = 5;\n@STMT@\n}\n", ["la"]),
+    "global-after-function-body": (HEAD + "int g0(void) { return 0; }\nint la = 4;\nvoid f(int x) {\nint z0 = 0; " + SAFE_DECL + "\n@STMT@\n}\n", ["la"]),
+    "global-after-semicolon": (HEAD + "int g0 = 0; int la = 4; int lb = 5;\nvoid f(int x) {\nint z0 = 0; " + SAFE_DECL + "\n@STMT@\n}\n", ["la", "lb"]),
+    "parameter": (HEAD + "void f(int la, int lb, int x) {\nint z0 = 0; " + SAFE_DECL + "\n@STMT@\n}\n", ["la", "lb"]),
+    "second-declarator": (HEAD + "void f(int x) {\nint z0 = 0; " + SAFE_DECL + " int z1 = 4, la = 5, lb = 6;\n@STMT@\n}\n", ["la", "lb"]),
+    "qualified-type": (HEAD + "void f(int x) {\nint z0 = 0; " + SAFE_DECL + " const int la = 4; unsigned int lb = 5;\n@STMT@\n}\n", ["la", "lb"]),
+    "uninitialised-then-assigned": (HEAD + "void f(int x) {\nint z0 = 0; " + SAFE_DECL + " int la; int lb; la = 4; lb = 5;\n@STMT@\n}\n", ["la", "lb"]),
+}
+ANGLE_OPS = ["<", ">", ">>", "<<", "<=", ">=", "<", ">>"]
+
+
+def gen_angle(rng, depth, leaves):
+    if depth <= 0 or rng.random() < 0.2:
+        return ("var", rng.choice(leaves))
+    op = rng.choice(ANGLE_OPS if rng.random() < 0.85 else ["+", "*", "==", "&&", "-"])
+    return ("bin", op, gen_angle(rng, depth - 1, leaves), gen_angle(rng, depth - 1, leaves))
+
+
+def decl_cases(rng, per_layout):
+    out = []
+    for name, (src, probes) in LAYOUTS.items():
+        decl = {v: "local-after-semicolon" for v in SAFE + ["z0", "z1"]}
+        decl.update({v: name for v in probes}); decl["x"] = "parameter"
+        for lang in ("cpp", "c"):
+            n = per_layout if lang == "cpp" else max(2, per_layout // 6)
+            P = probes[0]
+            fixed = [("bin", "<", ("bin", "<", ("var", P), ("var", "sa")), ("bin", ">>", ("var", "sb"), ("var", "sc"))),
+                     ("bin", "+", ("var", "sd"), ("bin", "<", ("bin", "<", ("var", "sa"), ("var", P)), ("bin", ">>", ("var", "sb"), ("var", "sc")))),
+                     ("bin", ">", ("bin", "<", ("var", P), ("var", "sa")), ("var", "sb")),
+                     ("bin", ">", ("bin", "<", ("var", P), ("bin", "-", ("var", "sa"), ("var", "sb"))), ("bin", "+", ("var", "sc"), ("var", "sd"))),
+                     ("bin", "<", ("var", P), ("bin", ">>", ("bin", ">>", ("var", "sa"), ("var", "sb")), ("var", "sc"))),
+                     ("bin", ">=", ("bin", "<", ("var", P), ("var", probes[-1])), ("bin", ">>", ("var", "sa"), ("var", P)))]
+            trees = fixed[:n] + [gen_angle(rng, rng.choice([2, 3, 4]), probes * 2 + SAFE) for _ in range(max(0, n - len(fixed)))]
+            for t in trees:
+                toks = pr(t, L_ASSIGN, rng, rng.choice([0.0, 0.0, 0.15]))
+                out.append(dict(lang=lang, toks=toks, expect=["=/3", "x/0"] + to_ast(t), tree=t, nontrivial=count_ops(t) >= 2,
+                                source=src, layout=name, decl=decl))
+    return out
+
+
 def pair_cases():
     """every ordered pair of binary operators in both groupings, and every binary operator against ?: in every position
     (printed minimally; the violation key of a deviation here would be the operator pair)"""
@@ -1162,6 +1299,16 @@ def search(ctx, res, exe, drv):
     report_fails(res, [f for f in fails if f["key"] is None][:20], "search")
 
 
+def corpus_case(c):
+    d = dict(lang=c["lang"], toks=c["toks"], expect=c.get("expect"), nontrivial=True, origin="corpus")
+    if c.get("layout"):
+        src, probes = LAYOUTS[c["layout"]]
+        decl = {v: "local-after-semicolon" for v in SAFE + ["z0", "z1"]}
+        decl.update({v: c["layout"] for v in probes}); decl["x"] = "parameter"
+        d.update(source=src, layout=c["layout"], decl=decl)
+    return d
+
+
 def load_corpus():
     p = os.path.join(core.VERIF, "corpus", "C07", "cases.json")
     return json.load(open(p)) if os.path.exists(p) else []
@@ -1189,7 +1336,7 @@ def run(ctx, res):
 
     # ---- corpus first --------------------------------------------------------------------------------------------
     corpus = load_corpus()
-    ccases = [dict(lang=c["lang"], toks=c["toks"], expect=c.get("expect"), nontrivial=True, origin="corpus") for c in corpus]
+    ccases = [corpus_case(c) for c in corpus]
     if ccases:
         fails = run_cases(ctx, res, exe, drv, ccases, "corpus")
         report_fails(res, fails, "corpus")
@@ -1226,6 +1373,13 @@ def run(ctx, res):
     fails = run_cases(ctx, res, exe, drv, nv, "nonvariable-after-parenthesis")
     res.extra["nonvariable_after_paren_skipDecl_fired"] = sum(1 for c in nv if c.get("fired"))
     report_fails(res, fails, "non-variable after parenthesis")
+    # `<` `>` `>>` ... chains over variables declared in every declaration position
+    dc = decl_cases(rng, 60 if thorough else 14)
+    fails = run_cases(ctx, res, exe, drv, dc, "declaration-positions")
+    report_fails(res, fails, "declaration position")
+    for c in dc:
+        res.count("declpos:" + c["layout"])
+    res.extra["declaration_position_cases"] = len(dc)
     # every pair of binary operators / ?: in both groupings (exhaustive over the table)
     pc = pair_cases()
     fails = run_cases(ctx, res, exe, drv, pc, "operator-pairs")
@@ -1248,7 +1402,7 @@ def run(ctx, res):
 def replay(ctx, res, rp):
     drv = ctx.driver("drv_c07")
     exe = ctx.harness("c07")
-    c = dict(lang=rp["lang"], toks=rp["toks"], expect=rp.get("expect"))
+    c = corpus_case(rp)
     fails = run_cases(ctx, res, exe, drv, [c], "replay")
     for f in fails:
         print("VIOLATION property=C07 replay=(replayed) %s got [%s] want [%s]" % (f["desc"], f["got"], f["want"]))
@@ -1340,7 +1494,7 @@ def mutation_selftest():
                 for i in range(1500):
                     lang = "cpp" if i % 2 else "c"
                     cases.append(mk_case(rng, lang, gen_tree(rng, rng.choice([2, 3, 4]), lang == "cpp", rng.random() < 0.5), rng.choice([0.0, 0.2])))
-                corpus = [dict(lang=c["lang"], toks=c["toks"], expect=c.get("expect"), nontrivial=True) for c in load_corpus()]
+                corpus = [corpus_case(c) for c in load_corpus()]
                 fails = run_cases(ctx, res, exe, drv, corpus + cases, "pipeline")
                 run_raw(ctx, res, exe, drv, 300, 600)
                 for o in res.obligations:
